@@ -85,6 +85,8 @@ def gen_world(rnd):
             kw['region'] = rnd.choice([None, 'x', 'alpha'])
         if rnd.random() < 0.2:
             kw['kpi_'] = rnd.choice([1, 2])
+        if rnd.random() < 0.12:
+            kw['clone'] = rnd.choice([None, 'x', 'alpha'])      # a user attribute that happens to carry the name of a Task method
         tasks.append(kw)
     parents = [None if (k == 0 or rnd.random() < 0.45) else rnd.randrange(k) for k in range(n)]
     detached = [rnd.random() < 0.1 for _ in range(n)]
@@ -132,9 +134,9 @@ def build(world):
 def gen_filters(rnd):
     kw = {}
     for _ in range(rnd.randint(1, 3)):
-        attr = rnd.choice(['id', 'parent_id', 'name', 'resource', 'estimate', 'spent', 'milestone', 'tag', 'prio', 'nope', 'start', 'min_start', 'end', 'iteration', 'region', 'kpi_'])
+        attr = rnd.choice(['id', 'parent_id', 'name', 'resource', 'estimate', 'spent', 'milestone', 'tag', 'prio', 'nope', 'start', 'min_start', 'end', 'iteration', 'region', 'kpi_', 'clone'])
         num = attr in ('id', 'parent_id', 'estimate', 'spent', 'prio', 'iteration', 'kpi_')
-        strv = attr in ('name', 'resource', 'tag', 'region')
+        strv = attr in ('name', 'resource', 'tag', 'region', 'clone')
         date = attr in ('start', 'end', 'min_start')
         kinds = ['', '_in_', '_not_in_', '_is_none_', '_is_not_none_', '_ne_'] + (['_lt_', '_le_', '_gt_', '_ge_'] if num or date else []) + \
             (['_like_', '_not_like_'] if strv else [])
@@ -226,6 +228,35 @@ def judge(case, acc):
             for s_ in SUFFIXES:
                 if k.endswith(s_) and (s_ in OPS or 'like' in s_) and any(getv(t, k[:-len(s_)]) is None for t in content):
                     acc.count('comparison_on_missing_attr')
+        if op == 'bulk_rel':
+            # assignment through a live dependency view: every task of the list gets the value -- also when carrying it out
+            # edits the very list that is being walked (x.successors.predecessors = [y] takes the tasks out of x.successors)
+            acc.count('bulk_relation_assignments')
+            rel = step['attr']
+            val = [u.tasks[k % len(u.tasks)] for k in step['value']]
+            model = s0
+            ok_model = True
+            for t in content:
+                try:
+                    outs, _ = graph.expected(model, ['preds=' if rel == 'predecessors' else 'succs=', u.L(t), [u.L(v) for v in val], 'list'])
+                except Exception:
+                    outs = None
+                if not outs or graph.invariants(outs[0]):
+                    ok_model = False
+                    break
+                model = outs[0]
+            try:
+                setattr(lst, rel, list(val))
+                outcome = 'ok'
+            except Exception as e:
+                outcome = type(e).__name__
+            s1 = snap(u)
+            one = {'kind': 'query', 'world': case['world'], 'steps': [step]}
+            if ok_model and outcome != 'ok':
+                acc.violation(f'C18/bulk-relation-raised-{outcome}', f'{step["list"]}.{rel} = {[t.id for t in val]} raised {outcome} although every single assignment is legal', one)
+            elif ok_model and graph.setlevel(s1) != graph.setlevel(model):
+                acc.violation('C18/bulk-assignment-effect/relation', f'{step["list"]}.{rel} = {[t.id for t in val]} on {[t.id for t in content]}: {diff(model, s1)}', one)
+            continue
         try:
             if op == 'query':
                 acc.count('queries')
@@ -323,6 +354,14 @@ def gen_case(rnd):
             # the one filter everybody writes: id=...; on a dependency list two different tasks may carry that id
             step.pop('callable_ids', None)
             step['kw'] = {'id': world['tasks'][-1]['id']}
+        if step['list'] in ('predecessors', 'successors') and rnd.random() < 0.2:
+            step['op'] = 'bulk_rel'
+            step['attr'] = rnd.choice(['predecessors', 'successors'])
+            step['value'] = [rnd.randrange(20) for _ in range(rnd.choice([0, 1, 1, 2]))]
+            step.pop('kw', None)
+            step.pop('callable_ids', None)
+            steps.append(step)
+            continue
         if r < 0.15:
             step['op'] = 'bulk'
             step['attr'] = rnd.choice(['tag', 'prio', 'name', 'resource', 'flag', 'iteration'])
